@@ -101,7 +101,7 @@ func main() {
 	sweep := flag.Bool("sweep", false, "development aid: load -repo once and run the rules of ALL properties against it, printing every non-ok obligation as `Cnn: key=…` (no evidence, no controls, no mutants) — used by tools/run_refactors.sh and tools/run_seeded.sh; the registered checks never use it")
 	flag.Parse()
 	if *sweep {
-		os.Exit(runSweep(*repo))
+		os.Exit(runSweep(*repo, *verif))
 	}
 	if t := os.Getenv("VERIF_TIER"); t != "" && !isFlagSet("tier") {
 		*tier = t
@@ -337,7 +337,23 @@ func runConfig(pd *PropDef, repo string, cs configSpec, overlay map[string][]byt
 }
 
 // runSweep: one load, every property's rules.  Prints non-ok obligations; exit 1 if any, 2 on load failure.
-func runSweep(repo string) int {
+func runSweep(repo, verif string) int {
+	// keys recorded as known findings are not alarms
+	knownKeys := map[string]bool{}
+	if data, err := os.ReadFile(filepath.Join(verif, "known-findings.txt")); err == nil {
+		for _, ln := range strings.Split(string(data), "\n") {
+			if !strings.HasPrefix(ln, "known:") {
+				continue
+			}
+			if i := strings.Index(ln, "key="); i >= 0 {
+				k := ln[i+4:]
+				if j := strings.Index(k, " :: "); j >= 0 {
+					k = k[:j]
+				}
+				knownKeys[strings.TrimSpace(k)] = true
+			}
+		}
+	}
 	p, err := Load(LoadConfig{Dir: repo, GOOS: quickConfigs[0].GOOS, GOARCH: quickConfigs[0].GOARCH})
 	if err != nil {
 		fmt.Printf("SWEEP load error: %v\n", err)
@@ -363,7 +379,7 @@ func runSweep(repo string) int {
 			c.checkFloors()
 			seen := map[string]bool{}
 			for _, r := range c.Results {
-				if r.Status == StOK || seen[r.Key] {
+				if r.Status == StOK || seen[r.Key] || knownKeys[r.Key] {
 					continue
 				}
 				seen[r.Key] = true
